@@ -226,6 +226,8 @@ def main(run: Run):
     decoder_l1.add_to(run, "csr")
     from . import validation
     validation.add_to(run, ['csr_decoder_add'])
+    from . import ctor_l1 as _ctor_l1
+    _ctor_l1.add_to(run, ['csr_decoder_init'])
     return run.finish(
         explanation="csr.Decoder.elaborate contract: strobe routing by the memory map's window placement, low address bits "
                     "forwarded as offset, write data copied, read data OR-merged; combinational over all inputs. "
